@@ -883,8 +883,8 @@ def run(tier):
             rep.defer_broken("DROPPED: fewer than 50 calls of functions that can fail for lack of memory found")
         if static_atomic_rule(prog, rep) < 3:
             rep.defer_broken("ATOMIC-static: fewer than 3 tested acquisitions found in units that keep integer bookkeeping at file scope")
-        if destroy_then_fail_rule(prog, rep) < 20:
-            rep.defer_broken("ATOMIC: fewer than 20 release/delete calls found in the event, timer and I/O units")
+        if destroy_then_fail_rule(prog, rep) < 12:
+            rep.defer_broken("ATOMIC: fewer than 12 release/delete calls found in the event, timer and I/O units")
         if realloc_nonzero_rule(prog, rep) < 4:
             rep.defer_broken("REALLOC-nonzero: fewer than 4 realloc calls found in the library")
         if double_free_rule(prog, rep) < 100:
